@@ -70,16 +70,17 @@ func (ch *Channel) Start() {
 
 			ch.subscribersRWMut.RLock()
 
+			// The messages of a channel are written to each subscriber one after the other, by this
+			// goroutine, so that they arrive in the order they were published. (A goroutine per message
+			// and subscriber let later messages overtake earlier ones.)
 			for _, conn := range ch.subscribers {
-				go func(conn *resp.Conn) {
-					if err := conn.WriteArray([]resp.Value{
-						resp.StringValue("message"),
-						resp.StringValue(ch.name),
-						resp.StringValue(message),
-					}); err != nil {
-						log.Println(err)
-					}
-				}(conn)
+				if err := conn.WriteArray([]resp.Value{
+					resp.StringValue("message"),
+					resp.StringValue(ch.name),
+					resp.StringValue(message),
+				}); err != nil {
+					log.Println(err)
+				}
 			}
 
 			ch.subscribersRWMut.RUnlock()
